@@ -11,6 +11,7 @@ import (
 	"go/types"
 	"math"
 	"math/big"
+	"os"
 	"sort"
 	"strings"
 
@@ -20,7 +21,12 @@ import (
 type VC struct {
 	Asserts []*Term
 	Desc    string
+	Seq     int // global creation order (VCs of one path are contiguous and share pc prefixes)
 }
+
+var vcSeq int
+
+func nextVCSeq() int { vcSeq++; return vcSeq }
 
 type Obligation struct {
 	Name   string
@@ -47,10 +53,16 @@ type State struct {
 	notes []string
 	// panic in flight (set by doPanic, cleared by recover())
 	panicking *Term
+	lits      map[*Term]bool
+	subst     map[*Term]*Term
+	allocs    *Term // ghost: collection elements created (BV64), nil if untracked
+	qf        map[*Term][]*qfact // lazily instantiated universal facts per base array
+	qfDone    map[[2]*Term]bool
+	trail     []int // blocks of the root function visited (trace mode only)
 }
 
 func NewState() *State {
-	return &State{mem: map[string]*Term{}, ghost: map[string]*Term{}, water: Fresh("W0", SInt)}
+	return &State{mem: map[string]*Term{}, ghost: map[string]*Term{}, water: FreshWater("W0")}
 }
 
 func (s *State) Clone() *State {
@@ -63,6 +75,32 @@ func (s *State) Clone() *State {
 	}
 	n.notes = s.notes
 	n.panicking = s.panicking
+	n.allocs = s.allocs
+	n.trail = s.trail
+	if s.qf != nil {
+		n.qf = make(map[*Term][]*qfact, len(s.qf))
+		for k, v := range s.qf {
+			n.qf[k] = v
+		}
+	}
+	if s.qfDone != nil {
+		n.qfDone = make(map[[2]*Term]bool, len(s.qfDone))
+		for k, v := range s.qfDone {
+			n.qfDone[k] = v
+		}
+	}
+	if s.lits != nil {
+		n.lits = make(map[*Term]bool, len(s.lits))
+		for k, v := range s.lits {
+			n.lits[k] = v
+		}
+	}
+	if s.subst != nil {
+		n.subst = make(map[*Term]*Term, len(s.subst))
+		for k, v := range s.subst {
+			n.subst[k] = v
+		}
+	}
 	return n
 }
 
@@ -70,7 +108,115 @@ func (s *State) Assume(t *Term) {
 	if t == nil || t == True {
 		return
 	}
+	t = s.Simp(t)
+	if t == True {
+		return
+	}
+	if t.Op == "and" {
+		for _, a := range t.Args {
+			s.Assume(a)
+		}
+		return
+	}
 	s.pc = append(s.pc, t)
+	s.learn(t)
+}
+
+// learn records literals and equalities with literals for later simplification.
+func (s *State) learn(t *Term) {
+	if s.lits == nil {
+		s.lits = map[*Term]bool{}
+	}
+	switch {
+	case t.Op == "and":
+		for _, a := range t.Args {
+			s.learn(a)
+		}
+	case t.Op == "not":
+		s.lits[t.Args[0]] = false
+	case t.Op == "forall" || t.Op == "exists":
+	default:
+		s.lits[t] = true
+		if t.Op == "=" {
+			a, b := t.Args[0], t.Args[1]
+			if a.IsLit() || ctorOf(a) != "" && len(a.Args) == 0 {
+				a, b = b, a
+			}
+			if (b.IsLit() || ctorOf(b) != "" && len(b.Args) == 0) && !a.IsLit() {
+				if s.subst == nil {
+					s.subst = map[*Term]*Term{}
+				}
+				s.subst[a] = b
+			}
+		}
+	}
+}
+
+// shallowSubst applies the known equalities to the top levels of t only
+// (enough for switch dispatch on a loaded value; cheap on big memory terms).
+func (s *State) shallowSubst(t *Term, depth int) *Term {
+	if r, ok := s.subst[t]; ok {
+		return r
+	}
+	if depth == 0 || t.Op == "" || len(t.QVars) > 0 || t.Op == "select" || t.Op == "store" {
+		return t
+	}
+	var args []*Term
+	for i, a := range t.Args {
+		b := s.shallowSubst(a, depth-1)
+		if b != a && args == nil {
+			args = append([]*Term(nil), t.Args...)
+		}
+		if args != nil {
+			args[i] = b
+		}
+	}
+	if args == nil {
+		return t
+	}
+	return rebuild(t, args)
+}
+
+// Simp simplifies t under the literals and equalities already assumed.
+func (s *State) Simp(t *Term) *Term {
+	if t.IsLit() {
+		return t
+	}
+	if len(s.subst) > 0 {
+		t = s.shallowSubst(t, 2)
+	}
+	if v, ok := s.lits[t]; ok {
+		return Bool(v)
+	}
+	if t.Op == "not" {
+		if v, ok := s.lits[t.Args[0]]; ok {
+			return Bool(!v)
+		}
+	}
+	if t.Op == "and" || t.Op == "or" {
+		var args []*Term
+		ch := false
+		for _, a := range t.Args {
+			x, neg := a, false
+			if x.Op == "not" {
+				x, neg = x.Args[0], true
+			}
+			if v, ok := s.lits[x]; ok {
+				args = append(args, Bool(v != neg))
+				ch = true
+			} else {
+				args = append(args, a)
+			}
+		}
+		if ch {
+			if t.Op == "and" {
+				t = And(args...)
+			} else {
+				t = Or(args...)
+			}
+		}
+	}
+	return t
 }
 
 func (s *State) Infeasible() bool {
@@ -94,7 +240,13 @@ func (s *State) Mem(srt string) *Term {
 }
 func (s *State) SetMem(srt string, m *Term) { s.mem["M:"+srt] = m }
 
-func (s *State) Load(loc *Term, srt string) *Term { return Select(s.Mem(srt), loc) }
+func (s *State) Load(loc *Term, srt string) *Term {
+	t := s.Sel(s.Mem(srt), loc)
+	if r, ok := s.subst[t]; ok && !r.IsLit() {
+		return r
+	}
+	return t
+}
 func (s *State) Store(loc *Term, v *Term) {
 	s.SetMem(v.Sort, Store(s.Mem(v.Sort), loc, v))
 }
@@ -138,7 +290,9 @@ func (s *State) HavocMem(filter func(key string) bool) {
 // NewObj allocates a fresh object id.
 func (s *State) NewObj(tag string) *Term {
 	o := Fresh("obj_"+tag, SInt)
-	s.Assume(IntCmp(">", o, s.water))
+	objLeaves[o] = true
+	s.pc = append(s.pc, App(">", SBool, o, s.water))
+	rankLeaf(o)
 	s.Assume(IntCmp(">", o, IntLit(0)))
 	s.water = o
 	return o
@@ -150,7 +304,9 @@ func (s *State) KnownLoc(l *Term) {
 	if l == NilLoc || ctorOf(l) == "mkloc" && l.Args[0].IntV != nil {
 		return
 	}
-	s.Assume(And(IntCmp("<=", LObj(l), s.water), IntCmp(">=", LObj(l), IntLit(0))))
+	// raw terms: these base facts must reach the solver even when the
+	// engine itself can fold the comparison
+	s.pc = append(s.pc, App("<=", SBool, LObj(l), s.water), App(">=", SBool, LObj(l), IntLit(0)))
 }
 
 type deferred struct {
@@ -173,10 +329,23 @@ type Frame struct {
 	loopSnap map[*ssa.BasicBlock]*loopSnapshot
 	entryState *State
 	specVars map[string]*Value
+	cur      *ssa.BasicBlock
 }
 
 type loopSnapshot struct {
-	dec *Term
+	dec     *Term
+	pre     *State            // state at loop entry (before havoc)
+	headMem map[string]*Term  // memories right after havoc + assume
+	water   *Term             // watermark at loop head
+	objs    []*Term           // objects the loop may modify
+	flocs   []*Term           // exact locations the loop may modify
+	framed  bool
+	summarized bool
+	spec    *LoopSpec
+	ord     string
+	labelTerm *Term // label-by expression evaluated at the loop head
+	allocs0 *Term
+	preLookup func(string) *Value
 }
 
 func (f *Frame) Clone() *Frame {
@@ -211,12 +380,21 @@ type Exec struct {
 	LoopHook   func(e *Exec, st *State, fr *Frame, b *ssa.BasicBlock, pred *ssa.BasicBlock) (handled bool)
 	InvokeHook func(e *Exec, st *State, fr *Frame, cc *ssa.CallCommon, recv *Value, args []*Value, k func(*State, []*Value)) bool
 	InlineOK   func(fn *ssa.Function) bool
+	AllocHook  func(e *Exec, st *State, fr *Frame, in ssa.Instruction, n *Term)
+	RetHook    func(e *Exec, st *State, fr *Frame, res []*Value)
+	BackEdgeHook func(e *Exec, st *State, fr *Frame, b *ssa.BasicBlock, label string, env *SpecEnv)
+	LoopHeadHook func(e *Exec, st *State, fr *Frame, b *ssa.BasicBlock, env *SpecEnv)
 	counter    map[string]int
 	abortPaths int
+	rootSpecVars map[string]*Value
+	usedContracts map[string]bool
+	paramMode bool
+	SliceHook func(e *Exec, st *State, fr *Frame, in *ssa.Slice, x *Value, lo, hi *Term)
+	PanicHook func(e *Exec, st *State, fr *Frame, in *ssa.Panic, pv *Term)
 }
 
 func NewExec(w *World) *Exec {
-	return &Exec{W: w, oblIdx: map[string]*Obligation{}, notes: map[string]bool{}, maxSteps: 2000000, counter: map[string]int{}}
+	return &Exec{W: w, oblIdx: map[string]*Obligation{}, notes: map[string]bool{}, maxSteps: 2000000, counter: map[string]int{}, usedContracts: map[string]bool{}}
 }
 
 func (e *Exec) Note(format string, a ...interface{}) {
@@ -240,6 +418,40 @@ func (e *Exec) AddVC(name, kind, fn string, st *State, negGoal *Term, desc strin
 		e.oblIdx[name] = o
 		e.obls = append(e.obls, o)
 	}
+	// a conjunction is proved conjunct by conjunct; a universally quantified
+	// goal is proved at a fresh skolem constant, with the path condition's own
+	// universally quantified facts instantiated there (helps every solver).
+	if negGoal.Op == "not" && negGoal.Args[0].Op == "and" {
+		var last *Obligation
+		for _, c := range negGoal.Args[0].Args {
+			last = e.AddVC(name, kind, fn, st, Not(c), desc)
+		}
+		return last
+	}
+	var extra []*Term
+	if negGoal.Op == "not" && negGoal.Args[0].Op == "forall" {
+		q := negGoal.Args[0]
+		m := map[*Term]*Term{}
+		var sks []*Term
+		for _, v := range q.QVars {
+			c := Fresh("sk_"+v.Leaf, v.Sort)
+			m[v] = c
+			sks = append(sks, c)
+		}
+		negGoal = Not(Subst(q.Args[0], m))
+		for _, c := range sks {
+			extra = append(extra, st.skolemInstances(c)...)
+		}
+		for _, p := range st.pc {
+			if p.Op == "forall" && len(p.QVars) == 1 {
+				for _, c := range sks {
+					if c.Sort == p.QVars[0].Sort {
+						extra = append(extra, Subst(p.Args[0], map[*Term]*Term{p.QVars[0]: c}))
+					}
+				}
+			}
+		}
+	}
 	if negGoal != False && negGoal != True {
 		// unit propagation of the path condition's literals into the goal
 		m := map[*Term]*Term{}
@@ -251,7 +463,7 @@ func (e *Exec) AddVC(name, kind, fn string, st *State, negGoal *Term, desc strin
 			}
 		}
 		if len(m) > 0 {
-			negGoal = Subst(negGoal, m)
+			negGoal = shallowMapSubst(negGoal, m, 5)
 		}
 	}
 	if negGoal == False {
@@ -259,8 +471,20 @@ func (e *Exec) AddVC(name, kind, fn string, st *State, negGoal *Term, desc strin
 		o.VCs = append(o.VCs, &VC{Asserts: []*Term{False}, Desc: desc})
 		return o
 	}
-	as := append(append([]*Term(nil), st.pc...), negGoal)
-	o.VCs = append(o.VCs, &VC{Asserts: as, Desc: desc})
+	// side facts for the memory cells the goal (and the instances) mention
+	if len(st.qf) > 0 {
+		seen := map[[2]*Term]bool{}
+		save := st.qfDone
+		st.qfDone = map[[2]*Term]bool{}
+		more := st.instancesIn(negGoal, seen)
+		for _, x := range extra {
+			more = append(more, st.instancesIn(x, seen)...)
+		}
+		st.qfDone = save
+		extra = append(extra, more...)
+	}
+	as := append(append(append([]*Term(nil), st.pc...), extra...), negGoal)
+	o.VCs = append(o.VCs, &VC{Asserts: as, Desc: desc, Seq: nextVCSeq()})
 	return o
 }
 
@@ -308,6 +532,15 @@ func (e *Exec) call(st *State, fn *ssa.Function, args []*Value, bindings []*Valu
 	for i, fv := range fn.FreeVars {
 		fr.vals[fv] = bindings[i]
 	}
+	if ct != nil && ct.Mode != "" && e.SafeMode == nil {
+		fr.mode = ct.Mode
+	}
+	if depth == 0 || (ct != nil && len(ct.Loops) > 0) {
+		fr.entryState = st.Clone()
+	}
+	if e.rootSpecVars != nil && depth == 0 {
+		fr.specVars = e.rootSpecVars
+	}
 	e.runBlock(st, fr, fn.Blocks[0], nil)
 }
 
@@ -334,10 +567,17 @@ func (e *Exec) runBlock(st *State, fr *Frame, b, pred *ssa.BasicBlock) {
 	if st.Infeasible() {
 		return
 	}
+	if traceOn && e.steps%20000 == 0 {
+		fmt.Fprintf(os.Stderr, "trace: steps=%d obls=%d fn=%s block=%d depth=%d pc=%d\n", e.steps, len(e.obls), fr.fn.Name(), b.Index, fr.depth, len(st.pc))
+	}
 	if !e.budget() {
 		e.Note("step budget exhausted in %s", fr.fn)
 		e.abortPaths++
 		return
+	}
+	fr.cur = b
+	if traceOn && fr.depth == 0 {
+		st.trail = append(append([]int(nil), st.trail...), b.Index)
 	}
 	if isLoopHeader(b) {
 		if e.LoopHook != nil && e.LoopHook(e, st, fr, b, pred) {
@@ -478,9 +718,14 @@ func (e *Exec) loadT(st *State, loc *Term, T types.Type) []*Term {
 	out := make([]*Term, len(srts))
 	for j, s := range srts {
 		out[j] = st.Load(LocField(loc, j), s)
-		if s == SLoc {
+		if s == SLoc && !out[j].Bound {
 			st.KnownLoc(out[j])
 		}
+	}
+	if _, ok := T.Underlying().(*types.Slice); ok && !out[1].Bound && !out[2].Bound {
+		// run-time invariant of every slice value: 0 <= len <= cap < 2^47
+		st.Assume(And(BVCmp("bvsge", out[1], BV64(0)), BVCmp("bvsle", out[1], out[2]), BVCmp("bvslt", out[2], BV64(1<<47))))
+		st.Assume(Implies(Eq(out[0], NilLoc), Eq(out[2], BV64(0))))
 	}
 	return out
 }
@@ -534,6 +779,7 @@ func (e *Exec) unboxValue(st *State, T types.Type, v *Term) []*Term {
 // frame's safety mode. It returns false if the ok-path is infeasible.
 // In "panics" mode the panic path is explored through the frame's defers.
 func (e *Exec) mayPanic(st *State, fr *Frame, cond *Term, kind string, in ssa.Instruction, pv *Term) bool {
+	cond = st.Simp(cond)
 	if cond == False {
 		return true
 	}
@@ -619,6 +865,9 @@ func fnName(fn *ssa.Function) string {
 // doPanic unwinds: run deferred calls of this frame with panicVal set, then
 // either resume at the Recover block (if recovered) or propagate.
 func (e *Exec) doPanic(st *State, fr *Frame, pv *Term) {
+	if e.panicSummarized(st, fr, pv) {
+		return
+	}
 	st.panicking = pv
 	e.runDefers(st, fr, func(st *State, fr *Frame) {
 		if st.panicking == nil {
@@ -662,6 +911,9 @@ func (e *Exec) step(st *State, fr *Frame, b *ssa.BasicBlock, i int, in ssa.Instr
 	case *ssa.Alloc:
 		T := in.Type().(*types.Pointer).Elem()
 		o := st.NewObj(in.Comment)
+		if addrPrivate(in) {
+			privateObjLeaves[o] = true
+		}
 		loc := MkLoc(o, IntLit(0), BV64(0))
 		if arr, ok := T.Underlying().(*types.Array); ok {
 			z := zeroLeaves(arr.Elem())
@@ -823,6 +1075,9 @@ func (e *Exec) step(st *State, fr *Frame, b *ssa.BasicBlock, i int, in ssa.Instr
 		}
 		o := st.NewObj("slice")
 		loc := MkLoc(o, IntLit(0), BV64(0))
+		if e.AllocHook != nil {
+			e.AllocHook(e, st, fr, in, ln)
+		}
 		e.assumeZeroed(st, loc, in.Type().Underlying().(*types.Slice).Elem())
 		fr.vals[in] = &Value{T: in.Type(), L: []*Term{loc, ln, cp}}
 	case *ssa.Slice:
@@ -857,13 +1112,16 @@ func (e *Exec) step(st *State, fr *Frame, b *ssa.BasicBlock, i int, in ssa.Instr
 		}
 		ks := k.L[0].Sort
 		has := st.MapHas(ks)
-		st.mem["MH:"+ks] = Store(has, m, Store(Select(has, m), k.L[0], True))
+		if e.AllocHook != nil {
+			e.AllocHook(e, st, fr, in, BV64(1))
+		}
+		st.mem["MH:"+ks] = Store(has, m, Store(st.Sel(has, m), k.L[0], True))
 		for j, lv := range v.L {
 			mv := st.MapVal(ks, j, lv.Sort)
-			st.mem[fmt.Sprintf("MV:%s:%d:%s", ks, j, lv.Sort)] = Store(mv, m, Store(Select(mv, m), k.L[0], lv))
+			st.mem[fmt.Sprintf("MV:%s:%d:%s", ks, j, lv.Sort)] = Store(mv, m, Store(st.Sel(mv, m), k.L[0], lv))
 		}
 	case *ssa.If:
-		c := e.val(st, fr, in.Cond).One()
+		c := st.Simp(e.val(st, fr, in.Cond).One())
 		tb, fb := b.Succs[0], b.Succs[1]
 		if c == True {
 			e.runBlock(st, fr, tb, b)
@@ -892,6 +1150,9 @@ func (e *Exec) step(st *State, fr *Frame, b *ssa.BasicBlock, i int, in ssa.Instr
 		return false, true
 	case *ssa.Panic:
 		pv := e.val(st, fr, in.X).One()
+		if e.PanicHook != nil {
+			e.PanicHook(e, st, fr, in, pv)
+		}
 		e.doPanic(st, fr, pv)
 		return false, true
 	case *ssa.Defer:
@@ -932,10 +1193,16 @@ func StrPanic(msg string) *Term {
 }
 
 func (e *Exec) assumeZeroed(st *State, loc *Term, elem types.Type) {
-	i := BoundVar(fmt.Sprintf("zi%d", freshSeqNext()), SBV(64))
+	// the fresh object's cells are zero: modelled as a new array that agrees
+	// with the old one outside the object and is zero inside it
 	for j, s := range leafSorts(elem) {
-		l := MkLoc(LObj(loc), IntAdd(LLeaf(loc), IntLit(int64(j))), i)
-		st.Assume(Forall([]*Term{i}, Eq(Select(st.Mem(s), l), zeroOfSort(s))))
+		old := st.Mem(s)
+		nw := Fresh("Mz_"+sortKey(s), old.Sort)
+		l := BoundVar(fmt.Sprintf("zl%d", freshSeqNext()), SLoc)
+		inObj := And(Eq(LObj(l), LObj(loc)), Eq(LLeaf(l), IntAdd(LLeaf(loc), IntLit(int64(j)))))
+		st.AddQFact(nw, &qfact{v: l, guard: inObj, lhs: Select(nw, l), rhs: zeroOfSort(s)})
+		st.AddQFact(nw, &qfact{v: l, guard: Not(Eq(LObj(l), LObj(loc))), lhs: Select(nw, l), rhs: Select(old, l)})
+		st.SetMem(s, nw)
 	}
 }
 
@@ -945,10 +1212,17 @@ func (e *Exec) havocValue(st *State, T types.Type, tag string) *Value {
 	var L []*Term
 	for _, s := range leafSorts(T) {
 		f := Fresh("hv_"+tag, s)
-		L = append(L, f)
 		if s == SLoc {
+			if e.paramMode {
+				// a pointer parameter at function entry: some object that
+				// existed before any allocation of this activation (or nil)
+				po := Fresh("pre_"+tag, SInt)
+				preObjLeaves[po] = true
+				f = MkLoc(po, Fresh("leaf_"+tag, SInt), Fresh("idx_"+tag, SBV(64)))
+			}
 			st.KnownLoc(f)
 		}
+		L = append(L, f)
 	}
 	v := &Value{T: T, L: L}
 	if _, ok := T.Underlying().(*types.Slice); ok {
@@ -1251,10 +1525,10 @@ func (e *Exec) lookup(st *State, fr *Frame, in *ssa.Lookup) bool {
 		vals = e.havocValue(st, mt.Elem(), "mapv").L
 	} else {
 		ks := k.L[0].Sort
-		has = And(Not(Eq(m, NilLoc)), Select(Select(st.MapHas(ks), m), k.L[0]))
+		has = And(Not(Eq(m, NilLoc)), Select(st.Sel(st.MapHas(ks), m), k.L[0]))
 		z := zeroLeaves(mt.Elem())
 		for j, s := range leafSorts(mt.Elem()) {
-			v := Select(Select(st.MapVal(ks, j, s), m), k.L[0])
+			v := Select(st.Sel(st.MapVal(ks, j, s), m), k.L[0])
 			vals = append(vals, Ite(has, v, z[j]))
 			if s == SLoc {
 				st.KnownLoc(vals[j])
@@ -1303,6 +1577,9 @@ func (e *Exec) slice(st *State, fr *Frame, in *ssa.Slice) bool {
 			hi = e.asInt64(e.val(st, fr, in.High))
 		} else {
 			hi = ln
+		}
+		if e.SliceHook != nil {
+			e.SliceHook(e, st, fr, in, x, lo, hi)
 		}
 		mx := cp
 		newcap := cp
@@ -1403,11 +1680,11 @@ func (e *Exec) next(st *State, fr *Frame, in *ssa.Next) {
 		if len(ks) == 1 && len(L) > 1 {
 			kterm := L[1]
 			if kterm.Sort == ks[0] {
-				st.Assume(Implies(ok, Select(Select(st.MapHas(ks[0]), m), kterm)))
+				st.Assume(Implies(ok, Select(st.Sel(st.MapHas(ks[0]), m), kterm)))
 				vs := leafSorts(mt.Elem())
 				if len(L) == 2+len(vs) {
 					for j, s := range vs {
-						st.Assume(Implies(ok, Eq(L[2+j], Select(Select(st.MapVal(ks[0], j, s), m), kterm))))
+						st.Assume(Implies(ok, Eq(L[2+j], Select(st.Sel(st.MapVal(ks[0], j, s), m), kterm))))
 					}
 				}
 			}
